@@ -838,9 +838,21 @@ fn process_incoming_text_message<T: Read + Write>(
                 Ok(id) => {
                     match file_context {
                         Some(fc) => {
-                            // todo add check for !stream.one_pass
                             if let Some(pos) = fc.streams.iter().position(|x| x.id == id) {
                                 match command {
+                                    "stream_binary_search" | "stream_change_window"
+                                    | "stream_search"
+                                        if fc.streams[pos].one_pass =>
+                                    {
+                                        // one_pass streams support no window changes, no search
+                                        // (the msgs might be removed from all_msgs already)
+                                        websocket
+                                            .write_message(Message::Text(format!(
+                                                "err: {} failed. stream_id {} is a one_pass stream. Not supported!",
+                                                command, id
+                                            )))
+                                            .unwrap(); // todo
+                                    }
                                     "stream_search" => {
                                         // search within the stream for all messages matching the filters:
                                         let stream = &fc.streams[pos];
